@@ -3,6 +3,8 @@
 package main
 
 import (
+	"sync"
+	"context"
 	"encoding/json"
 	"fmt"
 	"strings"
@@ -60,9 +62,30 @@ func runC19Case(r *ev.Run, c c19Case) int {
 		r.Violate(ev.Violation{Key: key, What: what, Case: c, Observed: obs})
 	}
 	tm := gen.TLS()
+	var cmu sync.Mutex
+	var cancelCtx context.CancelFunc
+	inner := scriptDecide(c.Script)
+	cancelAt := map[int]bool{}
+	for _, e := range c.Script {
+		if e.Kind == "cancel-ctx" {
+			cancelAt[e.Index] = true
+		}
+	}
+	decide := func(st refsmtp.Step) refsmtp.Action {
+		if cancelAt[st.Index] {
+			// the caller's context is cancelled while the dial-up / send is under way; the server answers normally
+			cmu.Lock()
+			if cancelCtx != nil {
+				cancelCtx()
+			}
+			cmu.Unlock()
+			return refsmtp.Action{}
+		}
+		return inner(st)
+	}
 	newCfg := func(int) *refsmtp.Config {
 		sc := &refsmtp.Config{
-			Decide: scriptDecide(c.Script), AllowUTF8: true,
+			Decide: decide, AllowUTF8: true,
 			Caps: func(_ int, tlsOn bool) []string {
 				if tlsOn {
 					if cfg.CapsTLS != nil {
@@ -121,7 +144,11 @@ func runC19Case(r *ev.Run, c c19Case) int {
 	if cfg.TLS == "implicit" {
 		farm.ImplicitTLS = gen.ClientTLS(netHost, 0, 0)
 	}
-	sr := runSendF(farm, opts, msgs, cfg.Via, defaultNetTimeout)
+	sr := runSendFC(farm, opts, msgs, cfg.Via, defaultNetTimeout, func(cf context.CancelFunc) {
+		cmu.Lock()
+		cancelCtx = cf
+		cmu.Unlock()
+	})
 	if sr.Panic != nil {
 		viol("panic", fmt.Sprintf("client panicked: %v", sr.Panic), nil)
 	}
@@ -255,7 +282,7 @@ func c19Configs(thorough bool) []c19Config {
 
 func runC19(r *ev.Run, rep *ev.ReplayDoc) ev.Summary {
 	sum := ev.Summary{
-		Rule: "execution-tree enumeration over the dial and dial-and-send dialogues: for DialWithContext, DialToSMTPClientWithContext and DialAndSend x TLS policies (none/opportunistic/mandatory, STARTTLS advertised or not, good / wrong-name / untrusted certificate) x auth configurations (PLAIN, LOGIN, wrong password, AUTH missing, mechanism unsupported, refused on unencrypted connection, autodiscover without usable mechanism), the server deviates ({4yz,5yz,drop}) at up to 1 (quick) / 2 (thorough) positions from the greeting to QUIT. The tracking net.Conn injected through WithDialContextFunc is inspected at the instant the public call returns. non-trivial = the call failed or a deviation was scripted",
+		Rule: "execution-tree enumeration over the dial and dial-and-send dialogues: for DialWithContext, DialToSMTPClientWithContext and DialAndSend x TLS policies (none/opportunistic/mandatory, STARTTLS advertised or not, good / wrong-name / untrusted certificate) x auth configurations (PLAIN, LOGIN, wrong password, AUTH missing, mechanism unsupported, refused on unencrypted connection, autodiscover without usable mechanism), the server deviates ({4yz, 5yz, drop, a line that is no SMTP reply}) or the caller's context is cancelled (server answering normally) at up to 1 (quick) / 2 (thorough) positions from the greeting to QUIT. The tracking net.Conn injected through WithDialContextFunc is inspected at the instant the public call returns. non-trivial = the call failed or a deviation was scripted",
 		Assumptions: []string{
 			"closing is synchronous: the conn must be closed when the call returns, no grace period",
 			"only errors returned after the dial function handed out a connection are judged",
@@ -273,7 +300,10 @@ func runC19(r *ev.Run, rep *ev.ReplayDoc) ev.Summary {
 		return sum
 	}
 	cfgs := c19Configs(r.Thorough() && !ev.RaceSlice())
-	n := enumTree(r, cfgs, func(c c19Config) int { return c.MaxDev }, devKinds, func(cfg c19Config, script []scriptEntry) int {
+	// deviations: negative replies, hang-up, a line that is no SMTP reply, and the caller's context being cancelled
+	// while the server answers normally
+	kinds := append(append([]string{}, devKinds...), "garbage", "cancel-ctx")
+	n := enumTree(r, cfgs, func(c c19Config) int { return c.MaxDev }, kinds, func(cfg c19Config, script []scriptEntry) int {
 		return runC19Case(r, c19Case{Cfg: cfg, Script: script})
 	})
 	r.Sample(map[string]any{"configurations": len(cfgs), "executions": n, "example": c19Case{Cfg: cfgs[1], Script: []scriptEntry{{Index: 2, Kind: "5yz"}}}})
